@@ -44,7 +44,12 @@ pub fn run_call(al: &mut Aligner<TableFn>, c: &Call) -> Alignment {
 fn new_aligner(c: &Case) -> Aligner<TableFn> {
     let mut sc = c.spec.scoring(false);
     sc.match_scores = c.match_scores;
+    // a scheme without clip penalties and without a summary is exactly what the plain constructors build:
+    // every other such case goes through Aligner::new / Aligner::with_capacity instead of the *_scoring ones
+    let plain = c.spec.clips.iter().all(|p| p.is_none()) && c.match_scores.is_none() && (c.call.x.len() + c.call.y.len()) % 2 == 1;
     match c.capacity {
+        None if plain => Aligner::new(c.spec.gap_open, c.spec.gap_extend, c.spec.table_fn()),
+        Some((m, n)) if plain => Aligner::with_capacity(m, n, c.spec.gap_open, c.spec.gap_extend, c.spec.table_fn()),
         None => Aligner::with_scoring(sc),
         Some((m, n)) => Aligner::with_capacity_and_scoring(m, n, sc),
     }
